@@ -109,7 +109,7 @@ func SeverityTable(p *core.Program, r *core.Report, rule string) {
 			if fn := core.Callee(info, c); fn == nil || core.RefName(fn) != "newConnectivityAnalysisError" {
 				return true
 			}
-			a3, a4 := core.ExprStr(c.Args[3]), core.ExprStr(c.Args[4])
+			a3, a4 := core.ExprStr(ResolveLocal(info, fd.Decl.Body, c.Args[3])), core.ExprStr(ResolveLocal(info, fd.Decl.Body, c.Args[4]))
 			if strings.HasSuffix(a3, ".IsSevere()") && strings.HasSuffix(a4, ".IsFatal()") && strings.TrimSuffix(a3, ".IsSevere()") == strings.TrimSuffix(a4, ".IsFatal()") {
 				ok = true
 			}
